@@ -33,6 +33,7 @@ class Program(object):
         c = self.chain
         t = 'select%s' % self.src
         for f in c.get('filters', ()): t += '.filter(%r)' % f
+        for kw in c.get('kwfilters', ()): t += '.filter(%s)' % ', '.join('%s=%r' % kv for kv in sorted(kw.items()))
         if c.get('order') and not c.get('order_attrs'): t += '.order_by(lambda: (%s))' % ', '.join(('desc(%s)' % k) if d else k for k, d in c['order'])
         if c.get('order_attrs'): t += '.order_by(%s)' % ', '.join(('desc(%s.%s)' if d else '%s.%s') % (c['order_entity'], a) for a, d in c['order_attrs'])
         if c.get('distinct') is True: t += '.distinct()'
@@ -74,7 +75,7 @@ def build_query(db, prog):
     from pony.orm import core
     scope = {k: v[1] for k, v in prog.scope.items()}
     g = {e.__name__: e for e in db.entities.values()}
-    for fn in ('count', 'sum', 'min', 'max', 'avg', 'exists', 'select', 'coalesce', 'concat', 'between', 'distinct', 'desc', 'len', 'abs', 'group_concat'):
+    for fn in ('count', 'sum', 'min', 'max', 'avg', 'exists', 'select', 'coalesce', 'concat', 'between', 'distinct', 'desc', 'len', 'abs', 'group_concat', 'JOIN'):
         g[fn] = getattr(core, fn, None) or __builtins__[fn] if isinstance(__builtins__, dict) else getattr(core, fn, None) or getattr(__builtins__, fn)
     import datetime
     g['date'] = datetime.date
@@ -89,6 +90,8 @@ def build_query(db, prog):
     if c:
         for f in c.get('filters', ()):
             q = q._process_lambda(f, g, dict(scope)) if False else q.filter(f, g, dict(scope))
+        for kw in c.get('kwfilters', ()):
+            q = q.filter(**kw)
         if c.get('order') and not c.get('order_attrs'):
             var = loop_var(prog.src)
             keys = ', '.join(('desc(%s)' % k) if d else k for k, d in c['order'])
@@ -126,6 +129,12 @@ def param_values(params, translator, q, penv, paramstyle):
     seen = {}
     for idx, p in enumerate(params):
         varkey, i, j = p.paramkey
+        if isinstance(varkey, int):
+            # value of a keyword filter (Query.filter(attr=value)): concrete per program
+            if i is not None or j is not None: raise Unmodelled('composite keyword-filter value')
+            key = idx if paramstyle in ('qmark', 'format') else (p.id - 1 if paramstyle == 'numeric' else 'p%d' % p.id)
+            out[key] = const(q._vars[varkey])
+            continue
         src = varkey[1]
         if not isinstance(src, str): raise Unmodelled('parameter without source text: %r' % (varkey,))
         if varkey not in seen:
@@ -474,6 +483,11 @@ def encode_chain(db, S, prog, dialect):
             e2 = e.child(**{arg: vals[0]})
             with e2.under(gg):
                 gg = z3.And(gg, z3.And(z3.Not(pysem.truth(e2, pysem.ev(lam.body, e2)).n), pysem.truth(e2, pysem.ev(lam.body, e2)).t))
+        for kw in c.get('kwfilters', ()):
+            if not (len(vals) == 1 and isinstance(vals[0], pysem.ERef)): raise Unmodelled('filter(**kw) on a non-entity result')
+            for k_, v_ in sorted(kw.items()):
+                cnd = pysem.cmp_values(penv, '==', pysem.attr_of(e, vals[0], k_), const(v_))
+                gg = z3.And(gg, z3.Not(cnd.n), cnd.t)
         keys = []
         for k, desc in c.get('order', ()):
             with e.under(gg): kv = pysem.as_data(pysem.ev(ast.parse(k, mode='eval').body, e))
